@@ -751,6 +751,20 @@ func Fault(n uint64) uint64 {
 	return uint64(v)
 }
 
+// MinBlock is the smallest block size any pool was created with since it was
+// last reset (the instrumenter puts a NoteBlockSize call into the pools'
+// NewPool): with the block-size knob set, a tree that derives a size from
+// DefaultBlockSize may arrive at a non-positive one, which is outside what the
+// pools promise anything for.
+var MinBlock int64 = 1 << 62
+
+//go:norace
+func NoteBlockSize(n int) {
+	if int64(n) < MinBlock {
+		MinBlock = int64(n)
+	}
+}
+
 // BeginOp sets the step budget of the running task's next operation.
 //
 //go:norace
